@@ -198,7 +198,7 @@ type ProcCase struct {
 	NoAnswer map[string]bool `json:"noAnswer,omitempty"`
 	Scripts  map[string][]AnswerSpec `json:"scripts,omitempty"` // per activity: how its k-th request is answered
 	Shutdown bool     `json:"shutdown,omitempty"` // cancel at the end and observe the shutdown
-	StartMode int     `json:"startMode,omitempty"` // 0 StartAll, 1 StartWith one after the other, 2 StartWith from concurrent goroutines
+	StartMode int     `json:"startMode,omitempty"` // 0 StartAll, 1 StartWith one after the other, 2 StartWith from concurrent goroutines, 3 ThrowAll (C07), 4 never started (C07)
 	StartOnly []string `json:"startOnly,omitempty"` // with StartMode 1/2: the start events to fire (in this order); empty = all
 	Waiters  []WaiterPlan `json:"waiters,omitempty"` // empty = one plain waiter
 	AnsDelayMs int    `json:"ansDelayMs,omitempty"` // fake time the answerer lets pass before each answer
@@ -868,6 +868,18 @@ func (c *ProcCase) Main() {
 			id := id
 			go startOne(id)
 		}
+	case 3:
+		// the instance is set going through its intermediate throw events (Process.ThrowAll), not through a start event
+		L.Add("throwall", "", "", 0)
+		if err := proc.ThrowAll(ctx); err != nil {
+			L.Add("throwall-none", err.Error(), "", 0)
+		}
+		L.Add("throwall-ret", "", "", 0)
+		markStarted()
+	case 4:
+		// the instance is never started
+		L.Add("never-started", "", "", 0)
+		markStarted()
 	}
 
 	// waiters
